@@ -3,6 +3,8 @@ CONSTANTS Tiny = TRUE
  Walk = FALSE
  MaxSteps = 1
  EmitOut = FALSE
+ Seed = 0
+ Stride = 1
  Bound = 0
 INVARIANTS RoundTrip Frame FormsAgree PathsDisjoint CopyRefines CopyExact
 CHECK_DEADLOCK FALSE
